@@ -29,6 +29,7 @@ import PrqlModel.Lemmas.RelBlockPerm
 import PrqlModel.Lemmas.RelBlockSplit
 import PrqlModel.Lemmas.Reorder
 import PrqlModel.Lemmas.Preprocess
+import PrqlModel.Lemmas.SelectPipe
 import PrqlModel.Lemmas.AggPerm
 namespace Props.C01
 open Gen.Split Model.Split Lemmas.Split
@@ -606,5 +607,78 @@ example : intersect { supportsDistinctOn := false, exceptAll := true, intersectA
     = some [.from [0], .intersect [1] true, .select [0]] := by decide
 
 end Stages
+
+/-! ### the clause assembly of `translate_select_pipeline` (mirror Model.SelectPipe, tie: every recorded call replayed,
+tools/selecttrace.py) and its link to the block theorem -/
+section ClauseAssembly
+open Model.SelectPipe Lemmas.SelectPipe
+
+/-- plucking by kind (what the code does) places every clause where placing the transforms one after the other does, on
+every segment with one aggregate at most and no sort in front of it: WHERE = the filters in front of the aggregate, HAVING =
+those after it, GROUP BY = its partition, ORDER BY = the last sort, LIMIT / OFFSET = the composition of all takes -/
+theorem pluck_is_sequential_placement (p : List Model.SelectPipe.Tr) (h : Admissible p) :
+    (p.foldl pushK {}).where_ = (parts p).where_ ∧
+    (p.foldl pushK {}).having = (parts p).having ∧
+    (p.foldl pushK {}).groupBy = (parts p).groupBy ∧
+    (p.foldl pushK {}).order.getD [] = (parts p).orderBy ∧
+    (p.foldl pushK {}).range = Model.Take.foldRanges (parts p).ranges :=
+  Lemmas.SelectPipe.pluck_is_sequential_placement p h
+
+example : Admissible [.from, .filter 0, .filter 1, .aggregate [2] [3], .filter 4, .sort [⟨3, true⟩], .take (some 2, some 5), .select [2, 3]] := by
+  constructor <;> intro pa c rest hd <;> simp [List.findIdx_cons, isAggregate] at hd <;> obtain ⟨_, _, rfl⟩ := hd
+  · intro t ht; simp at ht; rcases ht with rfl | rfl | rfl | rfl <;> rfl
+  · rfl
+
+/-- without "no sort in front of the aggregate" they differ (finding stale-sort-after-aggregate of C16 lives here) -/
+theorem pluck_keeps_a_stale_sort :
+    (parts [.sort [⟨0, false⟩], .aggregate [] [1]]).orderBy = [⟨0, false⟩] ∧
+    ([Model.SelectPipe.Tr.sort [⟨0, false⟩], .aggregate [] [1]].foldl pushK {}).order = none :=
+  stale_sort_counterexample
+
+/-- the kind of clause a transform of the reference semantics contributes -/
+def skel : Model.Rel.Tr → Model.SelectPipe.Tr
+  | .filter _ => .filter 0
+  | .sort _ => .sort []
+  | .take lo hi => .take (lo, hi)
+  | .aggregate _ => .aggregate [] []
+  | .groupAgg _ _ => .aggregate [] []
+  | .select _ => .select []
+  | _ => .other
+
+def grouped : Lemmas.RelBlock.Grouping → Bool
+  | .none => false
+  | _ => true
+
+/-- the clause skeleton of a block of the block theorem -/
+def blockShape (b : Lemmas.RelBlock.Block) : Nat × Nat × Bool × Bool × (Option Nat × Option Nat) :=
+  (b.wheres.length, b.havings.length, grouped b.group, b.order.isSome, b.range)
+
+def shapeShape (s : Shape) : Nat × Nat × Bool × Bool × (Option Nat × Option Nat) :=
+  (s.where_.length, s.having.length, s.grouped, s.order.isSome, s.range)
+
+/-- `push` of the block theorem (assemble_correct_rel) and the sequential placement `pushK` put every transform into the
+same clause -/
+theorem push_places_like_pushK (b : Lemmas.RelBlock.Block) (s : Shape) (tr : Model.Rel.Tr)
+    (h : blockShape b = shapeShape s) : blockShape (Lemmas.RelBlock.push b tr) = shapeShape (pushK s (skel tr)) := by
+  simp only [blockShape, shapeShape, Prod.mk.injEq] at h
+  obtain ⟨h1, h2, h3, h4, h5⟩ := h
+  cases tr <;> simp only [Lemmas.RelBlock.push, skel, pushK, blockShape, shapeShape]
+  case filter e =>
+    cases hg : b.group <;> simp_all [grouped] <;> (first | omega | simp_all)
+  all_goals simp_all [grouped]
+
+/-- hence the block assembled from a segment has the clause skeleton of the sequential placement of its kinds, for segments
+of any length -/
+theorem assemble_places_like_pushK (w : Nat) (seg : List Model.Rel.Tr) :
+    blockShape (Lemmas.RelBlock.assemble w seg) = shapeShape ((seg.map skel).foldl pushK {}) := by
+  unfold Lemmas.RelBlock.assemble
+  have : ∀ (b : Lemmas.RelBlock.Block) (s : Shape), blockShape b = shapeShape s →
+      blockShape (seg.foldl Lemmas.RelBlock.push b) = shapeShape ((seg.map skel).foldl pushK s) := by
+    induction seg with
+    | nil => intro b s h; exact h
+    | cons t ts ih => intro b s h; exact ih _ _ (push_places_like_pushK b s t h)
+  exact this _ _ rfl
+
+end ClauseAssembly
 
 end Props.C01
